@@ -67,16 +67,28 @@ func (h HostsList) AsList(sep string) []string {
 	return l
 }
 
+// asSortedList lists hosts in name order; the addresses of one host keep the order they were declared in
+func (h HostsList) asSortedList(sep string) []string {
+	hosts := make([]string, 0, len(h))
+	for k := range h {
+		hosts = append(hosts, k)
+	}
+	sort.Strings(hosts)
+	l := make([]string, 0, len(h))
+	for _, k := range hosts {
+		for _, ip := range h[k] {
+			l = append(l, fmt.Sprintf("%s%s%s", k, sep, ip))
+		}
+	}
+	return l
+}
+
 func (h HostsList) MarshalYAML() (interface{}, error) {
-	list := h.AsList("=")
-	sort.Strings(list)
-	return list, nil
+	return h.asSortedList("="), nil
 }
 
 func (h HostsList) MarshalJSON() ([]byte, error) {
-	list := h.AsList("=")
-	sort.Strings(list)
-	return json.Marshal(list)
+	return json.Marshal(h.asSortedList("="))
 }
 
 var hostListSerapators = []string{"=", ":"}
